@@ -135,6 +135,10 @@ def inline_round(ctx, requests=()):
         return f, []
     # demand-driven: when the failed resolvers said what they were looking for, only the helpers that (transitively, through other
     # unpinned helpers) contain it are inlined in this round; without hints every candidate goes in
+    if not hints and in_request:
+        req_c = {k: site for k, site in cands.items() if k in in_request}
+        if req_c:
+            cands = req_c
     if hints:
         R = ctx.roles
 
@@ -149,7 +153,10 @@ def inline_round(ctx, requests=()):
                     if matches(cl, depth + 1):
                         return True
             return False
-        chosen = {k: site for k, site in cands.items() if matches(f.mir[k]) or k in in_request}
+        chosen = {k: site for k, site in cands.items() if matches(f.mir[k])}
+        if not chosen:
+            # nothing contains what the resolvers asked for: fall back to the private stages of the functions the failed rules name
+            chosen = {k: site for k, site in cands.items() if k in in_request}
         # hints that no helper satisfies: what was lost is not hidden in an extracted helper, inlining would only blur the roles
         cands = chosen
         if not cands:
